@@ -445,7 +445,9 @@ class BleAccessory:
             return self._respond(c, tid, ST_INVALID_REQ, None, secure)
 
     def _char_write(self, c: GChar, tid: int, body: bytes | None, secure: bool) -> None:
-        d = tlv8.to_dict(tlv8.decode(body or b""))
+        if not tlv8.is_canonical(body or b""):
+            self.protocol_errors.append(f"write body (BleRequest, {len(body or b'')} bytes) is not the canonical TLV8 encoding of its fields")
+        d = tlv8.to_dict(tlv8.decode(body or b"", strict=False))
         if "pw" not in c.perms:
             self.writes_rejected.append((c.iid, ST_INVALID_REQ))
             return self._respond(c, tid, ST_INVALID_REQ, None, secure)
